@@ -105,6 +105,7 @@ Proof. exact index_resume_complete. Qed.
    and whose table updates do not re-type attributes (EK, EX), pagination of any table of any client is complete - the
    invariants the theorems above assume are established by the histories themselves *)
 From Minidyn Require Import Model.Client Proofs.ClientInv Proofs.ClientIndexInv Proofs.PaginationReach.
+From Minidyn Require Import Model.Client Proofs.StartKey.
 
 Theorem C04_pagination_complete_in_every_reachable_state_base :
   forall lm lu sdk ops cn tn c t,
@@ -129,3 +130,25 @@ Theorem C04_pagination_complete_in_every_reachable_state_index :
     exists items f, search_data lm (ctx_of c) t (with_page q 0 []) = Ok (items, [], f) /\
                     ipages lm (ctx_of c) t q (S (ix_count ix)) L [] = Some items.
 Proof. exact pagination_reachable_index. Qed.
+
+(* the ExclusiveStartKey of a request is validated (fix 9111e82): it is either rejected with a validation error or it
+   positions the read; it is never dropped silently, which restarted the read from the first item and made a
+   "while LastEvaluatedKey != nil" loop over a mistyped key spin for ever *)
+Theorem C04_start_key_accepted_iff :
+  forall t oix esk,
+    valid_start_key t oix esk = true <->
+    esk = [] \/
+    ((exists k, get_key (t_ks t) (t_defs t) esk = inr k) /\
+     (forall n ix, oix = Some n -> lookup n (t_indexes t) = Some ix -> exists k, get_key (ix_ks ix) (t_defs t) esk = inr k)).
+Proof. exact valid_start_key_spec. Qed.
+
+Theorem C04_accepted_start_key_positions_the_read :
+  forall t oix esk, valid_start_key t oix esk = true -> esk <> [] -> has_start_key (t_ks t) (t_defs t) esk = true.
+Proof. exact accepted_start_key_positions. Qed.
+
+Theorem C04_rejected_start_key_is_an_error :
+  forall lm sdk c t q,
+    valid_start_key t (match q_index q with Some [] => None | o => o end) (q_esk q) = false ->
+    (match q_index q with Some n => mem n (t_indexes t) = true \/ n = [] | None => True end) ->
+    run_search lm sdk c t q = (c, err_obs Validation).
+Proof. exact rejected_start_key_is_an_error. Qed.
